@@ -700,6 +700,11 @@ def _r4_uses(ctx):
                         src = bases[tgs.index(var)] if len(bases) == len(tgs) else bases[0]
                         break
                 want_seq = NELEM if is_elem else NSPEC
+                # where the item comes from is not understood (no enclosing loop binds it, the suffix is not an attribute of a loop
+                # variable): no verdict.  A VIOLATION needs a source that is understood and is another sequence / another suffix.
+                if src is None or var is None or (is_elem and e != _first_key(var) and not (J.names_of(e) <= {var[1]})):
+                    ctx.unrec("R4", key, (rel, it[2]), f"IDX_{'ELEM_' if is_elem else ''}{{{{ {J.show(e)} }}}}: the item the suffix is taken from is not a variable of an enclosing loop over a known sequence")
+                    continue
                 if is_elem:
                     ok = src == want_seq and e == _first_key(var)
                     ctx.check(ok, "R4", key, (rel, it[2]), "the element macro used is the one the header defines for an element of network.elements",
